@@ -262,6 +262,13 @@ def plan(alpha_name, n, rnd, tpl, seed, repo, files=True, nchunks=64, extra=''):
         chunks.append(('rnd', seed * 1000003 + i, min(per, rnd - i), 14))
     for i in range(0, tpl, per):
         chunks.append(('tpl', seed * 7919 + i + 17, min(per, tpl - i)))
+    if extra.startswith('stdlib'):
+        import sysconfig
+        d = sysconfig.get_paths()['stdlib']
+        cap = int(extra[6:] or 60)
+        fs = sorted(os.path.join(d, f) for f in os.listdir(d) if f.endswith('.py'))[:cap]
+        for i in range(0, len(fs), 3):
+            chunks.append(('files', fs[i:i + 3]))
     if extra == 'nesting':
         np_ = nesting_programs()
         for i in range(0, len(np_), 8):
